@@ -119,9 +119,10 @@ let tletter = function
 
 (* the quirk setting of the models: what the probes at the head of the run found on this tree *)
 let tq_bs = ref true and tq_bm = ref true and tq_br = ref true and tq_gs = ref true and tq_gm = ref true
+and tq_gn = ref true
 let current_tq () : tquirks =
   { tq_bind_struct_nodup = !tq_bs; tq_bind_map_nodup = !tq_bm; tq_bind_reset_panics = !tq_br;
-    tq_gen_struct_stuck = !tq_gs; tq_gen_map_key_nodup = !tq_gm }
+    tq_gen_struct_stuck = !tq_gs; tq_gen_map_key_nodup = !tq_gm; tq_gen_map_node_panics = !tq_gn }
 
 (* split "a RS b RS c" *)
 let split_segments (script : string) : string list =
@@ -146,7 +147,12 @@ let run_segment (engine : string) (ops : aop list) : string * bool * string opti
     | Some s -> finish letters true (match build s with Some n -> Some (string_of_dm (abs n)) | None -> None)
   end else begin
     let e = if String.sub engine 0 4 = "bind" then EBind else EGen in
-    let ty = if engine.[String.length engine - 1] = 'S' then TyS else TyM in
+    (* the type is spelled outside-in after the colon: S, MS = {String:Msg3}, LMS = [{String:Msg3}], ... *)
+    let spec = String.sub engine (String.index engine ':' + 1) (String.length engine - String.index engine ':' - 1) in
+    let spec = if spec = "M" then "MS" else spec in
+    let rec ty_of i = if i >= String.length spec then TyS else
+        match spec.[i] with 'M' -> TyM (ty_of (i + 1)) | 'L' -> TyL (ty_of (i + 1)) | _ -> TyS in
+    let ty = ty_of 0 in
     let (tr, fin) = trun_tol e (current_tq ()) (tinit ty) ops in
     let letters = List.map tletter tr in
     match fin with
@@ -172,7 +178,8 @@ let () =
       let v = (obs = "1") in
       (match name with
        | "bind_struct_nodup" -> tq_bs := v | "bind_map_nodup" -> tq_bm := v | "bind_reset_panics" -> tq_br := v
-       | "gen_struct_stuck" -> tq_gs := v | "gen_map_key_nodup" -> tq_gm := v | _ -> ());
+       | "gen_struct_stuck" -> tq_gs := v | "gen_map_key_nodup" -> tq_gm := v
+       | "gen_map_node_panics" -> tq_gn := v | _ -> ());
       print_string id; print_char '\t'; print_string obs; print_char '\t'; print_endline "ok"
     | id :: "c12" :: engine :: vtexts :: script :: obs :: _ ->
       let segs = split_segments script in
@@ -301,7 +308,17 @@ let () =
                           let seg = List.nth parsed (i / 2) in
                           let (opj, _) = List.nth seg !j in
                           let via_key_assembler = (match opj with AssignString _ | AssignNode _ -> true | _ -> false) in
-                          if wc = 'r' && oc = '.' then begin
+                          (* a repeated struct field or a repeated map key?  by the key that was supplied *)
+                          let is_s = (match opj with
+                              | AssembleEntry k | AssignString k | AssignNode (NString k) ->
+                                let ks = str_of_bytes k in ks = "whee" || ks = "woot" || ks = "waga"
+                              | _ -> is_s) in
+                          if oc = 'P' && gen && wc = '.' &&
+                             (match opj with
+                              | AssignNode (NMap ((_ :: _ as t), _)) -> List.for_all (fun (_, c) -> kind_of c = KMap) t
+                              | _ -> false)
+                          then set "gen_map_assignnode_foreign_panic"
+                          else if wc = 'r' && oc = '.' then begin
                             if bind && is_s then set "bind_struct_dup_accepted"
                             else if bind then set "bind_map_dup_accepted"
                             else if gen && (not is_s) && via_key_assembler then set "gen_map_keypath_dup_accepted"
